@@ -15,15 +15,18 @@ SameVal(mv, ov) == IF Head(mv) = "t" /\ Len(mv) > 1 /\ mv[2] < 0 /\ mv[2] # -3
                    THEN Head(ov) = "t" /\ Len(ov) > 1 /\ ov[2] = -1
                    ELSE Len(mv) = Len(ov) /\ Head(mv) = Head(ov) /\ Tail(mv) = Tail(ov)
 Verdict(r) ==
-  LET m == Start(r.tree, <<>>, IF r.caller THEN << <<"x", <<"c">> >> >> ELSE <<>>) IN
-  IF \E j \in 1..Len(r.log) : NodeAt(r.tree, r.log[j].p).k = "read"
-        /\ ~ReadAgrees(r.tree, r.log[j], NodeAt(r.tree, r.log[j].p).a,
-                       r.caller /\ NodeAt(r.tree, r.log[j].p).a = "x") THEN "visibility"
-  ELSE IF Len(r.log) # Len(m.st.log) THEN "readers-run"
-  ELSE IF \E j \in 1..Len(r.log) : NodeAt(r.tree, r.log[j].p).k = "gread"
-        /\ ~GlobalAgrees(m.st.acts, [m.st.log[j] EXCEPT !.v = r.log[j].v], NodeAt(r.tree, r.log[j].p).a)
-        /\ ~SameVal(m.st.log[j].v, r.log[j].v) THEN "globals"
-  ELSE IF \E j \in 1..Len(r.log) : r.log[j].p # m.st.log[j].p \/ ~SameVal(m.st.log[j].v, r.log[j].v) THEN "drift-log"
+  LET m == Start(r.tree, <<>>, IF r.caller THEN << <<"x", <<"c">> >> >> ELSE <<>>)
+      mlog == SelectSeq(m.st.log, LAMBDA e : e.what # "refuse")
+      Kind(j) == NodeAt(r.tree, r.log[j].p).k
+      Name(j) == NodeAt(r.tree, r.log[j].p).a IN
+  IF \E j \in 1..Len(r.log) : Kind(j) = "read" /\ ~ReadAgrees(r.tree, r.log[j], Name(j), r.caller /\ Name(j) = "x") THEN "visibility"
+  ELSE IF Len(r.log) # Len(mlog) THEN "readers-run"
+  ELSE IF \E j \in 1..Len(r.log) : r.log[j].p # mlog[j].p THEN "specs-run"
+  ELSE IF \E j \in 1..Len(r.log) : Kind(j) = "gread"
+        /\ ~GlobalAgrees(m.st.acts, [mlog[j] EXCEPT !.v = r.log[j].v], Name(j)) /\ ~SameVal(mlog[j].v, r.log[j].v) THEN "globals"
+  ELSE IF \E j \in 1..Len(r.log) : Kind(j) = "vread"
+        /\ ~VarsAgrees(r.tree, m.st.acts, [mlog[j] EXCEPT !.v = r.log[j].v], Name(j)) /\ ~SameVal(mlog[j].v, r.log[j].v) THEN "vars"
+  ELSE IF \E j \in 1..Len(r.log) : ~SameVal(mlog[j].v, r.log[j].v) THEN "drift-log"
   ELSE IF (m.out = "ok") # (r.out = "ok") THEN "drift-outcome"
   ELSE ""
 Check ==
